@@ -127,8 +127,18 @@ func reportersTrace(e *env) error {
 			// a small palette per day, so that foods repeat within the day in patterns like a a b c b
 			palette := []int{1, g.Book[e.rng.Intn(len(g.Book))].Name, 1 + e.rng.Intn(traceNames), g.Book[e.rng.Intn(len(g.Book))].Name, 1 + e.rng.Intn(traceNames)}
 			palette = palette[:2+e.rng.Intn(4)]
-			for i := e.rng.Intn(9); i > 0; i-- {
+			nEntries := e.rng.Intn(9)
+			if e.rng.Intn(4) == 0 {
+				nEntries = 9 + e.rng.Intn(6) // long days: 9..14 lines that merge to a handful of foods
+			}
+			first := 0
+			for i := nEntries; i > 0; i-- {
 				f := palette[e.rng.Intn(len(palette))]
+				if i == nEntries {
+					first = f
+				} else if nEntries > 8 && i == 1 {
+					f = first // the first food of a long day comes back at its end
+				}
 				q := e.rng.Intn(9) - 3
 				es = append(es, []int{f, q})
 				lg.WriteString(cc.entryLine(names[f], fmt.Sprint(q)) + "\n")
